@@ -8,7 +8,8 @@ class C05(Prop):
     thorough = {"seeds": 30000, "wall_cap": 1500, "chunk": 32}
     level = "exploration"
     rule = ("one case = one seeded scenario with an adaptive method (embedded pair or Richardson wrapper), either direction, initial dt from "
-            "1e-4*span to 3*span, tolerances 1e-3..1e-11 scaled to the method's order; fault-injecting cases add transient rhs spikes "
+            "1e-4*span to 3*span, tolerances 1e-3..1e-11 scaled to the method's order; 18% of the explicit cases are long contractions (linear flow shrinking by "
+            "e^-8..e^-16 over the span, atol = 1e-10*rtol, high-order pairs taking a few dozen steps); fault-injecting cases add transient rhs spikes "
             "(forcing rejections) and a small retry cap (making exhaustion reachable); non-trivial = at least one recorded step; for the "
             "rejection clauses the evidence counts how many runs actually had a rejected step (probe step_rejected)")
     assumptions = ["accuracy clause: closed-form problems only, error bound K*(atol+rtol*max|y|)*amplification with calibrated K (see calibration.json)",
